@@ -164,7 +164,7 @@ Definition all_known (l : list lattr) : Prop := forall a, In a l -> la_kind a <>
 
 (* when attribute [a], preceded by [pre], gets no error-severity diagnostic *)
 Definition attr_ok (pre : list lattr) (a : lattr) : Prop :=
-  la_value a <> []
+  (la_kind a <> KHidden -> la_value a <> [])
   /\ (la_kind a = KBody -> ~ In KForm (map la_kind pre))
   /\ (la_kind a = KForm -> ~ In KBody (map la_kind pre))
   /\ (is_param_kind (la_kind a) = true -> ~ In (la_value a) (map la_value pre))
@@ -241,17 +241,14 @@ Lemma common_attr_okb seen uniq i a : no_error (common_attr seen uniq i a) = att
 Proof.
   unfold common_attr, attr_okb. destruct (rule_of (la_kind a)) as [ru|]; [|reflexivity].
   rewrite !no_error_app, !no_error_if_err, no_error_if_warn.
-  assert (E : no_error (match la_alias a, ru_props ru with
-         | ANone, _ => []
-         | _, PropsNone => [warn CPropsShouldNotExist (AnComment i)]
-         | _, PropsNoName => [warn CPropShouldNotExist (AnComment i)]
-         | AStr _, PropsName => []
-         | ANonStr, PropsName => [warn CPropInvalidValue (AnComment i)]
-         end) = true).
-  { destruct (la_alias a), (ru_props ru); reflexivity. }
+  assert (E : no_error (props_diags i a (ru_props ru)) = true).
+  { unfold props_diags. destruct (la_alias a), (la_xprop a), (ru_props ru); reflexivity. }
   rewrite E.
   destruct (la_kind a); rewrite ?verb_diags_b; simpl; rewrite ?andb_true_r, ?andb_assoc; reflexivity.
 Qed.
+
+Lemma ne_imp (k : akind) (P : Prop) : k <> KHidden -> ((k <> KHidden -> P) <-> P).
+Proof. tauto. Qed.
 
 Lemma common_attr_ok pre seen uniq i a :
   la_kind a <> KUnknown ->
@@ -271,7 +268,7 @@ Proof.
   { rewrite negb_true_iff. apply is_nil_false. }
   destruct (la_kind a) eqn:K; try congruence;
     cbn [rule_of ru_requires_value ru_allows_multiple ru_unique ru_mutex ru_props existsb is_param_kind andb orb negb];
-    rewrite ?orb_false_r, ?andb_true_r, ?andb_true_iff.
+    rewrite ?orb_false_r, ?andb_true_r, ?andb_true_iff; try (rewrite ne_imp by discriminate).
   - (* Method *) rewrite Hv, smem_In. split.
     + intros [H1 H2]. repeat split; try discriminate; auto.
     + intros (H1 & _ & _ & _ & H5). split; auto.
@@ -308,6 +305,7 @@ Proof.
   - (* Security *) rewrite Hv. split.
     + intros H1. repeat split; try discriminate; auto.
     + intros (H1 & _). auto.
+  - (* Hidden *) split; [|reflexivity]. intros _. repeat split; try discriminate. congruence.
 Qed.
 
 Lemma rule_of_known k : k <> KUnknown -> exists ru, rule_of k = Some ru.
@@ -1223,7 +1221,8 @@ Proof.
     pose proof Ha as Hin. apply in_split in Ha. destruct Ha as [l1 [l2 E]]. destruct (Hcom l1 a l2 E) as (Hne & _).
     unfold sx_blank_value in Xblank. rewrite existsb_false in Xblank.
     specialize (Xblank a Hin). rewrite K, Eb in Xblank. simpl in Xblank.
-    rewrite andb_true_r in Xblank. apply negb_false_iff in Xblank. apply is_nil_spec in Xblank. contradiction. }
+    rewrite andb_true_r in Xblank. apply negb_false_iff in Xblank. apply is_nil_spec in Xblank. apply Hne; [|assumption].
+    intros Kh. rewrite Kh in K. discriminate. }
   assert (Href : forall a, In a (r_attrs r) -> is_param_kind (la_kind a) = true -> In (la_value a) (fnames r)).
   { intros a Ha Hk. destruct (is_nonpath_kind (la_kind a)) eqn:Knp.
     - pose proof (Hnonblank a Ha Knp) as Hnb.
@@ -1539,7 +1538,7 @@ Proof.
   { intros l1 a l2 E.
     assert (Ha : In a (r_attrs r)) by (rewrite E; apply in_or_app; right; left; reflexivity).
     unfold attr_ok. repeat split.
-    - destruct (la_kind a) eqn:K.
+    - intros Knh. destruct (la_kind a) eqn:K.
       + apply supported_nonempty. apply smem_In. apply W9. apply attrs_of_In. auto.
       + apply (sc_value r SC a Ha). auto.
       + destruct (Href a Ha) as (p & _ & _ & Hp & Np); [rewrite K; reflexivity|].
@@ -1554,6 +1553,7 @@ Proof.
         intros E0. pose proof (sc_names r SC p Hp) as Hb. rewrite Np, E0 in Hb. discriminate.
       + apply (sc_value r SC a Ha). auto.
       + exfalso. apply (sc_known r SC a Ha K).
+      + congruence.
     - intros K Hin. apply in_map_iff in Hin. destruct Hin as [b [Kb Hb]].
       assert (Hb' : In b (r_attrs r)) by (rewrite E; apply in_or_app; left; assumption).
       assert (B1 : In a (attrs_of KBody r)) by (apply attrs_of_In; auto).
@@ -1804,5 +1804,108 @@ Qed.
 
 Lemma rule_table_value :
   rule_table = [[0; 1; 0; 0; 0]; [1; 1; 0; 0; 0]; [2; 1; 1; 1; 2]; [3; 1; 1; 1; 2]; [4; 1; 1; 1; 2];
-                [5; 1; 1; 1; 2; 6]; [6; 1; 0; 1; 1; 5]; [7; 1; 1; 0; 1]].
+                [5; 1; 1; 1; 2; 6]; [6; 1; 0; 1; 1; 5]; [7; 1; 1; 0; 1]; [9; 0; 0; 0; 0]].
 Proof. reflexivity. Qed.
+
+(* ---------------------------------------------------------------- property warnings, @Hidden *)
+
+(* Whatever is wrong with the properties object of an annotation is a warning ... *)
+Lemma props_diags_warn i a p : no_error (props_diags i a p) = true.
+Proof. unfold props_diags. destruct (la_alias a), (la_xprop a), p; reflexivity. Qed.
+
+(* ... and it hides nothing: the error-relevant checks of validateAnnotation (required value, mutual
+   exclusion, unique value, verb) come out the same with and without the unknown property key *)
+Definition without_xprop (a : lattr) : lattr :=
+  {| la_kind := la_kind a; la_value := la_value a; la_alias := la_alias a; la_xprop := false |}.
+
+Lemma props_warning_masks_nothing seen uniq i a :
+  no_error (common_attr seen uniq i a) = no_error (common_attr seen uniq i (without_xprop a)).
+Proof. rewrite !common_attr_okb. reflexivity. Qed.
+
+Lemma common_go_without_xprop : forall l seen uniq i,
+  no_error (common_go seen uniq (index_from i l)) = no_error (common_go seen uniq (index_from i (map without_xprop l))).
+Proof.
+  induction l as [|a t IH]; intros seen uniq i; [reflexivity|].
+  cbn [map index_from common_go]. rewrite !no_error_app.
+  rewrite (props_warning_masks_nothing (la_kind a :: seen) uniq i a).
+  cbn [without_xprop la_kind la_value]. f_equal. apply IH.
+Qed.
+
+Definition route_without_xprop (r : route) : route :=
+  {| r_prefix := r_prefix r; r_attrs := map without_xprop (r_attrs r); r_params := r_params r; r_rets := r_rets r |}.
+
+Theorem props_warnings_mask_nothing r :
+  no_error (common_diags r) = no_error (common_diags (route_without_xprop r)).
+Proof. unfold common_diags, indexed. apply common_go_without_xprop. Qed.
+
+(* @Hidden: the property text does not know the annotation ... *)
+Definition hidden_attr : lattr := mkA KHidden "".
+Definition with_hidden (r : route) : route :=
+  {| r_prefix := r_prefix r; r_attrs := r_attrs r ++ [hidden_attr]; r_params := r_params r; r_rets := r_rets r |}.
+
+Lemma attrs_of_with_hidden k r : k <> KHidden -> attrs_of k (with_hidden r) = attrs_of k r.
+Proof.
+  intros Hk. unfold attrs_of, with_hidden. cbn [r_attrs]. rewrite filter_app. cbn [filter].
+  replace (kind_is k hidden_attr) with false; [apply app_nil_r|].
+  symmetry. destruct k; try reflexivity. congruence.
+Qed.
+
+Lemma param_attrs_with_hidden r : param_attrs (with_hidden r) = param_attrs r.
+Proof. unfold param_attrs, with_hidden. cbn [r_attrs]. rewrite filter_app. cbn. apply app_nil_r. Qed.
+
+Lemma first_value_with_hidden k r : k <> KHidden -> first_value k (with_hidden r) = first_value k r.
+Proof.
+  intros Hk. unfold first_value. rewrite !find_filter.
+  change (filter (kind_is k) (r_attrs (with_hidden r))) with (attrs_of k (with_hidden r)).
+  rewrite attrs_of_with_hidden by assumption. reflexivity.
+Qed.
+
+Lemma is_endpoint_with_hidden r : is_endpoint (with_hidden r) = is_endpoint r.
+Proof.
+  unfold is_endpoint. rewrite first_value_with_hidden by discriminate. f_equal.
+  unfold with_hidden. cbn [r_attrs]. rewrite existsb_app. cbn. apply orb_false_r.
+Qed.
+
+Theorem well_linked_with_hidden r : well_linked (with_hidden r) = well_linked r.
+Proof.
+  unfold well_linked, full_template, the_route, count_refs.
+  rewrite is_endpoint_with_hidden, param_attrs_with_hidden.
+  rewrite !attrs_of_with_hidden by discriminate.
+  rewrite first_value_with_hidden by discriminate.
+  reflexivity.
+Qed.
+
+(* ... so a hidden route is held to the same rules: accepted only if well linked *)
+Theorem hidden_not_exempt r :
+  existsb (kind_is KHidden) (r_attrs r) = true ->
+  in_scope r = true -> sound_excl r = false -> accepted r = true -> well_linked r = true.
+Proof. intros _. apply sound_partial. Qed.
+
+(* a hidden route with every kind of annotation; the same with a URL parameter nobody binds *)
+Definition demo_hidden_ok : route := with_hidden demo_ok.
+Definition demo_hidden_unbound : route :=
+  mkR "/items" [mkA KMethod "GET"; mkA KRoute "/{id}/revisions/{rev}"; mkA KPath "id"; mkA KHidden ""]
+    [mkP "id" TPrim SPlain] [RPlain; RError].
+(* one annotation with a misspelt property key AND a second reference to a parameter; an unsupported verb
+   with a property *)
+Definition demo_xprop_double_ref : route :=
+  mkR "/items" [mkA KMethod "GET"; mkA KRoute "/{id}"; mkA KPath "id";
+                {| la_kind := KHeader; la_value := s "id"; la_alias := AStr (s "x-token"); la_xprop := true |}]
+    [mkP "id" TPrim SPlain] [RPlain; RError].
+Definition demo_xprop_verb : route :=
+  mkR "/items" [mkAX KMethod "TRACE"; mkA KRoute "/{id}"; mkA KPath "id"] [mkP "id" TPrim SPlain] [RPlain; RError].
+
+Lemma demo_hidden_facts :
+  (in_scope demo_hidden_ok = true /\ well_linked demo_hidden_ok = true /\ accepted demo_hidden_ok = true
+   /\ validate demo_hidden_ok = VDiags [])
+  /\ (in_scope demo_hidden_unbound = true /\ sound_excl demo_hidden_unbound = false
+      /\ well_linked demo_hidden_unbound = false /\ has_error_diag demo_hidden_unbound = true).
+Proof. vm_compute. repeat split. Qed.
+
+Lemma demo_xprop_facts :
+  (in_scope demo_xprop_double_ref = true /\ well_linked demo_xprop_double_ref = false
+   /\ has_error_diag demo_xprop_double_ref = true
+   /\ obs_of (validate demo_xprop_double_ref) = (2, [(6, 2); (9, 1)]))
+  /\ (in_scope demo_xprop_verb = true /\ well_linked demo_xprop_verb = false
+      /\ obs_of (validate demo_xprop_verb) = (2, [(5, 2); (4, 1)])).
+Proof. vm_compute. repeat split. Qed.
